@@ -65,7 +65,7 @@ func init() {
 			}
 			return 600
 		},
-		Require: []string{"blocks_processed", "pool_admitted", "rpc_queries", "direct_reads", "reorgs", "storm_overlap_ops", "locked_getter_calls", "locked_getter_calls_in_a_stable_state", "locked_getter_calls_overlapping_a_membership_change", "locked_getter_calls_overlapping_a_membership_change:State.GetProducers", "membership_changing_steps", "pending_to_active_steps"},
+		Require: []string{"blocks_processed", "pool_admitted", "rpc_queries", "direct_reads", "reorgs", "storm_overlap_ops", "locked_getter_calls", "locked_getter_calls_in_a_stable_state", "locked_getter_calls_overlapping_a_membership_change", "locked_getter_calls_overlapping_a_membership_change:State.GetProducers", "membership_changing_steps", "pending_to_active_steps", "special_payload_calls", "special_payload_calls_overlapping_reader_calls", "special_payloads_accepted"},
 		Assumptions: []string{"the race detector only sees races on executed interleavings: a clean run is 'no race on K storms covering these operations', not race freedom",
 			"RPC handlers are called directly (servers.* functions) with the globals wired as main.go does; servers.Server is nil so peer-listing handlers are excluded"},
 	})
